@@ -83,6 +83,7 @@ SELF = obj(
     _previous_neighbors=custom(lambda it, n: VDict()),
     _neighbors=custom(lambda it, n: VDict()),
     processes=_ident_obj('processes'),
+    _previous_processes=_ident_obj('processes of an earlier reload'),
     _configurations=custom(lambda it, n: VList([VStr(it.ctx.fresh('fname'), 'fname')])),
     _text=bool_(),
     parser=obj(None, line=const(()), number=const(0)),
@@ -110,12 +111,15 @@ contract(
         'self._commit_reload': _commit,
         'self._link': noop,
         'self.validate': _validate,
+        'self._cleanup': noop,  # clears the parser sections and the scope: nothing this contract speaks about
     },
     # whatever goes wrong inside is reported by reload(); here it may escape
     escapes=['ValueError'],
     ensures=[
         # a reload that does not succeed leaves the neighbors exactly as they were
         'implies(result is not True, self.neighbors is old(self.neighbors))',
+        # ... and the API processes (the reactor stops every process missing from this table right after a reload)
+        'implies(result is not True, self.processes is old(self.processes))',
         'implies(result is True, committed)',
     ],
     final=[
@@ -129,6 +133,8 @@ contract(
     ],
 )
 REG.mark_inline(CF, 'Configuration._clear', 'Configuration._rollback_reload')
+# called from the inlined _rollback_reload: clears the parser sections and the scope, nothing these contracts speak about
+REG.mark_native(CF, 'Configuration._cleanup', noop)
 
 
 # ------------------------------------------------------------------------------------------------ reload(): every path
